@@ -41,6 +41,7 @@ func Run(c *lib.Ctx) {
 		"frames: the number of requests that passed a port comes from the harness's reference reading of the workflow (one per Write on an out-port whatever the number of its links, one per packet delivered to an in-port), not from the packet hooks: the oracle demands exactly one complete frame per request at quiescence, the model is fed one request and one answer event per request (a hook call beyond that is dropped and counted), and at the sources / sinks the answer of frame i must be the i-th response received / answer given, by identity",
 		"frames, fan-in: the requests of an in-port are the packets in the order its reader delivered them (read off the reader by identity at a sink; identified by the value the node then emits at an observed OneToOne node) and the k-th packet leaving through the port answers the k-th delivered one; a frame must pair a request with that answer whatever order the port's inbound hooks ran in; directed cases add a harness inbound hook after the agent's that parks the first of two racing writers for ≤150 ms (or yields the processor, 25–60 rounds)",
 		"frames: after its last pending request is answered a sink calls Receive once more with probability 1/4 (op d): the call must be refused and is no answer – an answer event with no unanswered request on its port is not fed to the model; directed cases: writes refused by every (closed) linked reader followed by a live reader linked to the same writer (exactly one frame per accepted request), and a breakpoint added to an already closed debugger (a further Close must leave no packet paused: AddBreakpoint-after-Close is an order of add / close calls with a packet paused when Close is called, hence inside the statement)",
+		"frames with Agent.Unload / Unload→Load / Load again of a random symbol and process restarts at random points of a schedule (2–4 requests pipelined per process), and with a symbol of a chain replaced in the real symbol.Table while a request is in flight (the table then unloads and loads it and its linked neighbours): which frames the agent keeps is its choice – frames recorded twice count once, a port the agent holds nothing for is not compared, the number of frames is not – the oracle demands that every complete frame pairs request i with answer i of its port and process (FIFO, the harness's hook log) and that no frame is half-open once every request was answered",
 		"frames: that the k-th answer on a port answers the k-th request on it is C01's contract (Reader.Receive / Writer.receive are FIFO by construction); the oracle and theorem C19.frame_pairs take it as the hypothesis",
 		"transparency is a differential over deterministic hand-over schedules: after every step the harness waits for exactly the events its reference reading of the workflow predicts (actions entered in gated nodes, sink arrivals, source responses) before the next step, the same on both runs; goroutine interleavings inside one step are the Go scheduler's. ManyToOne workflows keep one request in flight per source (a queued unpaired packet behind unanswered ones is C02's subject)",
 		"frames recorded for a process that was terminated with requests in flight (the exit hook deletes frames[proc], later drop answers re-create it) are reported in the evidence as an observation, not judged: C19 speaks about pairing, C05 about what outlives a process",
@@ -113,6 +114,28 @@ func Run(c *lib.Ctx) {
 	}
 
 	lap("corpus + frames")
+	// (2a) the agent is unloaded / loaded again at random points of the schedule
+	if !only {
+		for i := 0; i < c.Scale(60, 1500); i++ {
+			r := rng.Fork()
+			fs := genFlow(r)
+			nsess := r.Range(1, 2)
+			ops := insertReloads(r, fs, nsess, genOps(r, fs, nsess, c.Scale(8, 12), r.Range(2, 4)))
+			sc.Begin()
+			c.Hit("frames-reload-cases")
+			c.Count(slow(c, "frames reload", func() string { return framesCase(c, fs, nsess, ops, false, sc, &fails) }))
+		}
+	}
+
+	// (2a') a linked neighbour is replaced in the real table with a request in flight
+	if !only {
+		for i := 0; i < c.Scale(8, 100); i++ {
+			r := rng.Fork()
+			sc.Begin()
+			c.Count(slow(c, "table replace", func() string { return replaceCase(c, r, sc, &fails) }))
+		}
+	}
+
 	// (2b) fan-in: two writers of one process racing into one in-port
 	if !only {
 		for i := 0; i < c.Scale(6, 40); i++ {
